@@ -138,6 +138,12 @@ func c16Strategy(rt *rapid.T) (edsv1.ExtendedDaemonSetSpecStrategy, int) {
 }
 
 // c16Check runs the whole C16 oracle on one spec. It returns violations (never panics itself).
+// c16Env: environment of the reconcile rounds of c16Check (set by the lattice test, zero for the fuzz target).
+var c16Env struct {
+	FailEveryPodWrite int  // every k-th pod write of the replica-set controller is refused (0 = none)
+	ShortGaps         bool // rounds 2s apart (inside reconcileFrequency) instead of 11s
+}
+
 func c16Check(strategy edsv1.ExtendedDaemonSetSpecStrategy, mode edsv1.ExtendedDaemonSetSpecStrategyCanaryValidationMode, templateName string, reconcile bool) (vs []mon.V) {
 	add := func(sig, detail string) {
 		b, _ := json.Marshal(strategy)
@@ -248,6 +254,21 @@ func c16Check(strategy edsv1.ExtendedDaemonSetSpecStrategy, mode edsv1.ExtendedD
 		c.AddNode(fmt.Sprintf("n%d", i), map[string]string{"zone": "a"}, nil)
 	}
 	c.Add(in.DeepCopy())
+	// optionally every k-th pod write of the replica-set controller is refused, and some rounds follow each other
+	// within reconcileFrequency: an accepted spec must not crash the reconcilers on their error paths either
+	if k := c16Env.FailEveryPodWrite; k > 0 {
+		n := 0
+		c.Faults = func(call *sim.Call) sim.FaultKind {
+			if call.Actor != sim.ActorERS || call.Kind != "Pod" || !call.Write {
+				return sim.FaultNone
+			}
+			n++
+			if n%k == 0 {
+				return sim.FaultReject
+			}
+			return sim.FaultNone
+		}
+	}
 	run := func(actor, ns, name string) {
 		r := c.Reconcile(actor, ns, name)
 		if r.Panic != nil {
@@ -260,7 +281,11 @@ func c16Check(strategy edsv1.ExtendedDaemonSetSpecStrategy, mode edsv1.ExtendedD
 			run(sim.ActorERS, rs.Namespace, rs.Name)
 		}
 		c.KubeletProgress()
-		c.Advance(11 * time.Second)
+		gap := 11 * time.Second
+		if c16Env.ShortGaps {
+			gap = 2 * time.Second
+		}
+		c.Advance(gap)
 	}
 	for i := 0; i < 4 && len(vs) == 0; i++ {
 		round()
@@ -356,7 +381,7 @@ func userSetChanged(a, b reflect.Value, path string) []string {
 }
 
 func TestC16Lattice(t *testing.T) {
-	rec := evid.New("TestC16Lattice", "C16", "strategy drawn from the boundary lattice of every field (absent, 0, negative, 1, huge, percent, malformed percent, plain string; durations <=0 and >0; booleans; validation mode unset/auto/manual; canary block and sub-blocks absent/present; unusable canary nodeSelector) x controller default mode x template name; oracle: Default idempotent, recognised as defaulted, every dereferenced field filled, no user value changed, Validate returns and rejects the documented cases, and 11 reconcile rounds (incl. a template change so the canary paths run, pod restarts) never panic; non-trivial = at least one field at a boundary value; distinct by JSON of the strategy")
+	rec := evid.New("TestC16Lattice", "C16", "strategy drawn from the boundary lattice of every field (absent, 0, negative, 1, huge, percent, malformed percent, plain string; durations <=0 and >0; booleans; validation mode unset/auto/manual; canary block and sub-blocks absent/present; unusable canary nodeSelector) x controller default mode x template name; oracle: Default idempotent, recognised as defaulted, every dereferenced field filled, no user value changed, Validate returns and rejects the documented cases, and 11 reconcile rounds (incl. a template change so the canary paths run, pod restarts; optionally every k-th pod write refused and rounds inside reconcileFrequency) never panic; non-trivial = at least one field at a boundary value; distinct by JSON of the strategy")
 	t.Cleanup(func() {
 		if !t.Failed() {
 			rec.Done()
@@ -375,8 +400,12 @@ func TestC16Lattice(t *testing.T) {
 		if boundary > 0 {
 			rec.Sample(map[string]interface{}{"strategy": json.RawMessage(b), "defaultValidationMode": mode})
 		}
+		c16Env.FailEveryPodWrite = rapid.SampledFrom([]int{0, 0, 1, 2, 3}).Draw(rt, "failEveryPodWrite")
+		c16Env.ShortGaps = rapid.IntRange(0, 3).Draw(rt, "shortGaps") == 0
 		vs := c16Check(strategy, mode, tname, true)
-		settle(rt, rec, vs, map[string]interface{}{"strategy": json.RawMessage(b), "defaultValidationMode": mode, "templateName": tname}, len(b), "")
+		faultDesc := fmt.Sprintf("failEveryPodWrite=%d shortGaps=%v", c16Env.FailEveryPodWrite, c16Env.ShortGaps)
+		c16Env.FailEveryPodWrite, c16Env.ShortGaps = 0, false
+		settle(rt, rec, vs, map[string]interface{}{"strategy": json.RawMessage(b), "defaultValidationMode": mode, "templateName": tname, "environment": faultDesc}, len(b), "")
 	})
 }
 
